@@ -26,10 +26,16 @@ func (fx *fnExec) step(in ssa.Instruction, st *State, b *ssa.BasicBlock) {
 	case *ssa.Store:
 		addr := fx.value(in.Addr, st)
 		v := fx.value(in.Val, st)
+		mp := fx.ptrOf(addr, st, in.Pos(), true)
 		if v.Ptr != nil {
+			if mp.Kind == PLocal && len(mp.Path) == 0 {
+				// an interior pointer kept in a non-escaping local (e.g. a pointer parameter of an
+				// inlined callee): stays at the meta level
+				st.Allocs[mp.Alloc] = v
+				return
+			}
 			v = fx.materialize(v)
 		}
-		mp := fx.ptrOf(addr, st, in.Pos(), true)
 		fx.store(st, mp, v)
 	case *ssa.UnOp:
 		fx.unop(in, st)
@@ -290,6 +296,14 @@ func strEq(a, b Val) *Term {
 }
 
 func (fx *fnExec) binop(op token.Token, x, y Val, rt types.Type, st *State, pos token.Pos) Val {
+	if (x.Ptr != nil || y.Ptr != nil) && (op == token.EQL || op == token.NEQ) {
+		if eq, ok := fx.metaPtrEq(x, y); ok {
+			if op == token.EQL {
+				return boolVal(eq)
+			}
+			return boolVal(Not(eq))
+		}
+	}
 	if x.Ptr != nil {
 		x = fx.materialize(x)
 	}
@@ -482,6 +496,9 @@ func (fx *fnExec) intBinop(op token.Token, x, y Val, rt types.Type, st *State, p
 		return scalar(rt, BVUDiv(a, b))
 	case token.REM:
 		fx.nopanic("div", st, Neq(b, BVI(0, w)), pos)
+		if abstractRem {
+			return scalar(rt, abstractRemTerm(a, b, signed))
+		}
 		if signed {
 			return scalar(rt, BVSRem(a, b))
 		}
